@@ -234,19 +234,19 @@ impl DirSpec {
 impl LocSpec {
 //@item src/position.rs :: impl LocSpec :: fn is_top
 //@ ensures
-//@ - r == (self is Top || self is TopLeft || self is TopRight || self is TopEdge)
+//@ - r == (self is Top || self is TopLeft || self is TopRight || self is TopEdge)     @@C19.loc.is_top
 //@end
 //@item src/position.rs :: impl LocSpec :: fn is_right
 //@ ensures
-//@ - r == (self is Right || self is TopRight || self is BottomRight || self is RightEdge)
+//@ - r == (self is Right || self is TopRight || self is BottomRight || self is RightEdge)     @@C19.loc.is_right
 //@end
 //@item src/position.rs :: impl LocSpec :: fn is_bottom
 //@ ensures
-//@ - r == (self is Bottom || self is BottomLeft || self is BottomRight || self is BottomEdge)
+//@ - r == (self is Bottom || self is BottomLeft || self is BottomRight || self is BottomEdge)     @@C19.loc.is_bottom
 //@end
 //@item src/position.rs :: impl LocSpec :: fn is_left
 //@ ensures
-//@ - r == (self is Left || self is TopLeft || self is BottomLeft || self is LeftEdge)
+//@ - r == (self is Left || self is TopLeft || self is BottomLeft || self is LeftEdge)     @@C19.loc.is_left
 //@end
 }
 
